@@ -3,6 +3,8 @@
   Property statements only.  `Spec.ns d = secs·10⁹ + nanos`; the range is ±(2⁶³−1) ms.
 -/
 import Chrono.Proofs.DeltaL
+import Chrono.Proofs.DeltaDivL
+import Chrono.Proofs.DeltaDisplayL
 
 namespace Chrono.Props.C06
 open Chrono Chrono.M Chrono.Spec Chrono.Proofs Chrono.Extracted
@@ -100,5 +102,103 @@ theorem std_spec (secs nanos : Int) (hs : 0 ≤ secs ∧ secs ≤ 18446744073709
 example : DInv Delta.MAX ∧ Delta.checked_add Delta.MAX ⟨0, 1⟩ = .ok none ∧
     Delta.checked_sub Delta.MAX ⟨0, 1⟩ = .ok (some ⟨9223372036854775, 806999999⟩) ∧
     Delta.checked_mul Delta.MAX 2 = .ok none := by decide
+
+/-! ### Division by an `i32` -/
+
+/-- division by a non-zero `i32` never panics (no intermediate leaves its machine type), never
+refuses, stays in the range, and differs from the exact quotient by less than two nanoseconds:
+`|ns r · k − ns a| < 2·|k|` -/
+theorem div_spec (a : Delta) (k : Int) (ha : DInv a) (hk : -2147483648 ≤ k ∧ k ≤ 2147483647)
+    (hk0 : k ≠ 0) :
+    ∃ r, Delta.checked_div a k = .ok (some r) ∧ DInv r ∧
+      (ns r * k - ns a).natAbs < 2 * k.natAbs :=
+  div_spec' a k ha hk hk0
+
+/-- division by zero is refused (for every pair, valid or not) -/
+theorem div_zero (a : Delta) : Delta.checked_div a 0 = .ok none := div_zero' a
+
+/-- division by `1` and `-1` is exact -/
+theorem div_unit (a : Delta) (ha : DInv a) :
+    Delta.checked_div a 1 = .ok (some a) ∧ Delta.checked_div a (-1) = .ok (some (ofNs (-(ns a)))) :=
+  div_unit' a ha
+
+/-- the result in closed form; the nanosecond sum never reaches 10⁹, so the upward-carry arm of the
+`match` in `checked_div` (`NANOS_PER_SEC..=i32::MAX`) is unreachable for valid operands -/
+theorem div_closed_form (a : Delta) (k : Int) (ha : DInv a) (hk : -2147483648 ≤ k ∧ k ≤ 2147483647)
+    (hk0 : k ≠ 0) :
+    let qs := Int.tdiv a.secs k
+    let nanos := Int.tdiv a.nanos k + Int.tdiv (Int.tmod a.secs k * 1000000000) k
+    Delta.checked_div a k =
+      .ok (some (if nanos < 0 then ⟨qs - 1, nanos + 1000000000⟩ else ⟨qs, nanos⟩)) ∧
+    nanos < 1000000000 :=
+  div_eq' a k ha hk hk0
+
+/-- the bound cannot be lowered to one nanosecond: 2.000000002 s / 3 is off by 4/3 ns; and a
+quotient that is an integer number of nanoseconds need not be hit (1.5 s / 3 gives 0.499999999 s) -/
+theorem div_error_exceeds_one_ns :
+    Delta.checked_div ⟨2, 2⟩ 3 = .ok (some ⟨0, 666666666⟩) ∧
+    (ns ⟨0, 666666666⟩ * 3 - ns ⟨2, 2⟩).natAbs = 4 ∧
+    Delta.checked_div ⟨1, 500000000⟩ 3 = .ok (some ⟨0, 499999999⟩) := by decide
+
+/-- non-vacuity: range ends, both signs of the divisor, the downward carry -/
+example : DInv Delta.MIN ∧
+    Delta.checked_div Delta.MIN (-2147483648) = .ok (some ⟨4294967, 296000000⟩) ∧
+    Delta.checked_div Delta.MIN 2147483647 = .ok (some ⟨-4294968, 702000000⟩) ∧
+    Delta.checked_div Delta.MAX (-1) = .ok (some Delta.MIN) ∧
+    Delta.checked_div ⟨-3, 0⟩ 2 = .ok (some ⟨-2, 500000000⟩) ∧
+    Delta.checked_div ⟨-1, 999999999⟩ 2 = .ok (some ⟨-1, 999999999⟩) := by decide
+
+/-! ### Display -/
+
+/-- the text form, read back by the independent reader `Spec.readDuration` (sign, `P0D` or
+`PT<int>[.<frac>]S`, at most nine fraction digits, no trailing zero), is the exact nanosecond count;
+in particular formatting never panics -/
+theorem display_value (a : Delta) (ha : DInv a) :
+    ∃ t, Delta.display a = .ok t ∧ readDuration t = some (ns a) :=
+  display_value' a ha
+
+/-- non-vacuity: "-PT9223372036854775.807S", "P0D", "PT0.000001S"; the reader refuses an untrimmed
+fraction, a bare point and an empty integer part -/
+example :
+    Delta.display Delta.MIN = .ok [45, 80, 84, 57, 50, 50, 51, 51, 55, 50, 48, 51, 54, 56, 53, 52, 55,
+      55, 53, 46, 56, 48, 55, 83] ∧
+    Delta.display ⟨0, 0⟩ = .ok [80, 48, 68] ∧
+    Delta.display ⟨0, 1000⟩ = .ok [80, 84, 48, 46, 48, 48, 48, 48, 48, 49, 83] ∧
+    readDuration [80, 84, 48, 46, 48, 48, 48, 48, 48, 49, 83] = some 1000 ∧
+    readDuration [80, 84, 49, 46, 53, 48, 83] = none ∧ readDuration [80, 84, 49, 46, 83] = none ∧
+    readDuration [80, 84, 46, 53, 83] = none := by decide
+
+/-! ### Sum -/
+
+/-- `Sum` (a fold with the panicking `+`) is the fold of the nanosecond counts that checks the range
+after every step (`Spec.sumNs`): the exact total, or a panic at the first partial sum out of range -/
+theorem sum_spec (xs : List Delta) (acc : Delta) (hacc : DInv acc) (hxs : ∀ x ∈ xs, DInv x) :
+    Delta.sum xs acc =
+      match sumNs (xs.map ns) (ns acc) with
+      | some n => .ok (ofNs n)
+      | none => .panic :=
+  sum_spec' xs acc hacc hxs
+
+/-- the same without the auxiliary fold: the exact total when every partial sum is in range, a panic
+otherwise -/
+theorem sum_exact (xs : List Delta) (acc : Delta) (hacc : DInv acc) (hxs : ∀ x ∈ xs, DInv x) :
+    ((∀ i, 1 ≤ i → i ≤ (xs.map ns).length → nsInRange (ns acc + ((xs.map ns).take i).sum)) →
+      Delta.sum xs acc = .ok (ofNs (ns acc + (xs.map ns).sum))) ∧
+    (¬ (∀ i, 1 ≤ i → i ≤ (xs.map ns).length → nsInRange (ns acc + ((xs.map ns).take i).sum)) →
+      Delta.sum xs acc = .panic) := by
+  rw [sum_spec' xs acc hacc hxs]
+  cases h : sumNs (xs.map ns) (ns acc) with
+  | none =>
+    refine ⟨fun hall => ?_, fun _ => rfl⟩
+    have := (sumNs_iff (xs.map ns) (ns acc) _).mpr ⟨rfl, hall⟩
+    rw [h] at this; cases this
+  | some m =>
+    obtain ⟨hm, hall⟩ := (sumNs_iff (xs.map ns) (ns acc) m).mp h
+    refine ⟨fun _ => by rw [hm], fun hn => absurd hall hn⟩
+
+/-- non-vacuity: a sum that passes through the top of the range panics although its total is small -/
+example : Delta.sum [⟨0, 1⟩, ⟨-1, 0⟩] Delta.MAX = .panic ∧
+    Delta.sum [⟨-1, 0⟩, ⟨0, 1⟩] Delta.MAX = .ok ⟨9223372036854774, 807000001⟩ ∧
+    sumNs [1, -1000000000] NS_MAX = none := by decide
 
 end Chrono.Props.C06
